@@ -89,3 +89,35 @@ func TestReplayD29OverwriteLeavesCronJob(t *testing.T) {
 		t.Fatalf("the known finding D29 seems to be gone (pending jobs = %d): update known_findings.json", n)
 	}
 }
+
+// D11 (repaired): a parent loop that goes through another location (a -> b -> a) recursed until the stack overflowed
+// (DoAncestors only detected a location naming ITSELF as a parent). Now every operation that walks the ancestors reports
+// AncestorLoop. A diamond (a -> b -> d, a -> c -> d) is not a loop and keeps working.
+func TestFixedD11IndirectParentLoopIsAnError(t *testing.T) {
+	ctx, sys, _ := replaySystem(t, false)
+	if _, err := sys.SetParents(ctx, "a", []string{"b"}); err != nil {
+		t.Fatal(err)
+	}
+	if _, err := sys.SetParents(ctx, "b", []string{"a"}); err != nil {
+		t.Fatal(err)
+	}
+	if _, err := sys.SearchFacts(ctx, "a", `{"x":"?x"}`, true); err == nil {
+		t.Fatalf("an inherited search in a parent loop succeeded")
+	}
+	// diamond
+	for _, l := range [][]string{{"top", "left", "right"}, {"left", "base"}, {"right", "base"}} {
+		if _, err := sys.SetParents(ctx, l[0], l[1:]); err != nil {
+			t.Fatal(err)
+		}
+	}
+	if _, err := sys.AddFact(ctx, "base", "f", `{"x":1}`); err != nil {
+		t.Fatal(err)
+	}
+	srs, err := sys.SearchFacts(ctx, "top", `{"x":"?x"}`, true)
+	if err != nil {
+		t.Fatalf("inherited search through a diamond failed: %v", err)
+	}
+	if len(srs.Found) != 2 {
+		t.Fatalf("expected the base fact once per path (2), got %d", len(srs.Found))
+	}
+}
